@@ -485,32 +485,11 @@ def timing(ctx, uberjob):
     scheduler (harness/detsched.py: a baton passed between the real worker threads at every bytecode of
     run_function_on_graph.py) drives aggressive interleavings; the value returned must be the directly evaluated one and
     every call must run once with the directly evaluated arguments."""
-    import detsched
-    import uberjob._execution.run_physical as rp
-    import uberjob._execution.run_function_on_graph as rfg
+    import plansched
     rng = ctx.rng
-    sites = detsched.Sites(rfg)
-    state = {"chooser": None, "run": None}
-    orig = rp.run_function_on_graph
-
-    def det_rfg(graph, fn, *, worker_count=None, max_errors=0, scheduler=None):
-        r = detsched.Run(rfg, sites, state["chooser"])
-        state["run"] = r
-        outcome = r.execute(graph, fn, worker_count, max_errors, scheduler)
-        if outcome[0] == "raised":
-            raise outcome[1]
-        if outcome[0] != "returned":
-            raise RuntimeError("controlled run ended with %r" % (outcome,))
-
-    # shape: list of (name, argument names); evaluated directly below.  'x','y' are leaves.
-    shapes = {
-        "join2": [("a", []), ("b", []), ("j", ["a", "b"])],
-        "double-join": [("a", []), ("b", []), ("h", []), ("j", ["a", "b"]), ("k", ["j", "h"])],
-        "join3-chain": [("a", []), ("b", []), ("c", []), ("j", ["a", "b", "c"]), ("h", []), ("k", ["j", "h"]), ("m", ["k", "a"])],
-        "two-joins": [("a", []), ("b", []), ("j1", ["a", "b"]), ("j2", ["b", "a"]), ("h", []), ("k", ["j1", "j2", "h"])],
-    }
-    rp.run_function_on_graph = det_rfg
-    try:
+    shapes = plansched.SHAPES
+    ctl = plansched.Controlled()
+    with ctl:
         for name, shape in shapes.items():
             for si in range(ctx.n(40, 400)):
                 calls = []
@@ -528,15 +507,14 @@ def timing(ctx, uberjob):
                     nodes[nm] = plan.call(mk(nm), *[nodes[a] for a in args])
                     direct[nm] = (nm,) + tuple(direct[a] for a in args)
                 last = shape[-1][0]
-                state["chooser"] = detsched.random_chooser(rng, rng.choice([0.3, 0.5, 0.7])) if si % 3 else \
-                    detsched.pct_chooser(rng, depth=rng.choice([2, 4, 6]), horizon=rng.choice([200, 500]))
+                ctl.set(plansched.stress_chooser(rng, si))
                 workers = rng.choice([2, 3, 4, 5])
                 scheduler = rng.choice([None, "random", "default"])
                 try:
                     res = ("ok", uberjob.run(plan, output=nodes[last], max_workers=workers, scheduler=scheduler, progress=None))
                 except BaseException as e:        # noqa: a controlled run must simply return the value
                     res = ("raised", "%s: %s / cause %r" % (type(e).__name__, e, e.__cause__))
-                r = state["run"]
+                r = ctl.last
                 rep = {"shape": name, "program": ["%s = call(%s%s)" % (nm, nm, "".join(", " + a for a in args)) for nm, args in shape],
                        "max_workers": workers, "scheduler": scheduler, "decisions": r.sched.decisions[:4000] if r else None,
                        "events": [repr(e) for e in (r.events[:300] if r else [])], "seed": ctx.seed}
@@ -551,8 +529,6 @@ def timing(ctx, uberjob):
                     if args != direct[nm][1:]:
                         ctx.fail("timing:args", "under a forced interleaving call %s received %r, direct evaluation passes %r" % (nm, args, direct[nm][1:]), rep)
                         break
-    finally:
-        rp.run_function_on_graph = orig
 
 
 def describe_graph(U, graph, Call, Literal, PositionalArg, KeywordArg, _builtins, operator, fcode):
